@@ -229,9 +229,27 @@ impl World {
                 b.set_class(n.class.as_str());
                 b
             }
+            // 4-7: what the builder documentation says about names: `new(class)` also names the instance after that class
+            // "unless overwritten later", `with_class` / `set_class` change the class and nothing else, `empty()` leaves
+            // every field empty
+            5 => InstanceBuilder::new("Decoy").with_class(n.class.as_str()),
+            6 => InstanceBuilder::new("Decoy").with_name(n.name.clone()).with_class(n.class.as_str()),
+            7 => InstanceBuilder::empty().with_class(n.class.as_str()),
             _ => InstanceBuilder::new(n.class.as_str()),
         };
-        let mut b = if n.other_thread { std::thread::scope(|s| s.spawn(make).join().expect("builder thread")) } else { make() }.with_name(n.name.clone());
+        let made = if n.other_thread { std::thread::scope(|s| s.spawn(make).join().expect("builder thread")) } else { make() };
+        let (mut b, effective_name) = match n.ctor {
+            4 => (made, n.class.clone()),
+            5 => (made, "Decoy".to_owned()),
+            6 => (made, n.name.clone()),
+            7 => (made, String::new()),
+            8 => {
+                let mut b = made;
+                b.set_name(n.name.clone());
+                (b, n.name.clone())
+            }
+            _ => (made.with_name(n.name.clone()), n.name.clone()),
+        };
         let id = m.next;
         m.next += 1;
         let mut props = BTreeMap::new();
@@ -275,7 +293,7 @@ impl World {
         props.insert("Tag".to_owned(), MV::V(canon::value(&Variant::String(tag), &canon::no_refs)));
         m.nodes.insert(
             id,
-            MNode { class: n.class.clone(), name: n.name.clone(), props, parent, children: vec![], dom },
+            MNode { class: n.class.clone(), name: effective_name, props, parent, children: vec![], dom },
         );
         ids.push((InstanceBuilderInfo { referent: b.referent() }, id));
         for c in &n.children {
@@ -339,7 +357,7 @@ fn gen_newnode(ch: &mut dyn Chooser, w: &World, cfg: &Cfg, depth: usize, budget:
         }
     }
     let other_thread = cfg.rich_props && !cfg.exhaustive && ch.choose(6) == 0;
-    let ctor = if cfg.rich_props && !cfg.exhaustive { [0u8, 0, 0, 1, 2, 3][ch.choose(6)] } else { 0 };
+    let ctor = if cfg.rich_props && !cfg.exhaustive { [0u8, 0, 0, 1, 2, 3, 4, 5, 6, 7, 8][ch.choose(11)] } else { 0 };
     let rich = cfg.rich_props && !cfg.exhaustive;
     let name_prop = if rich && ch.choose(12) == 0 { Some(["Other", "", "a"][ch.choose(3)].to_owned()) } else { None };
     let live_ids: Vec<usize> = w.m.nodes.keys().copied().collect();
